@@ -1,0 +1,15 @@
+//go:build verif
+
+package renderer
+
+const verifOn = true
+
+// VerifHook, when set, receives internal events of verification builds (-tags verif).
+// It is nil unless a verification harness installs it, and it does not exist in normal builds.
+var VerifHook func(ev string, args ...interface{})
+
+func verifEmit(ev string, args ...interface{}) {
+	if h := VerifHook; h != nil {
+		h(ev, args...)
+	}
+}
